@@ -201,7 +201,14 @@ func (f *F) js() map[string]interface{} {
 		m["name"] = f.Name
 	case "ref":
 		if f.Ref != nil {
-			return f.Ref.js()
+			m := f.Ref.js()
+			if strings.HasPrefix(f.Name, "(d_") {
+				m["dep"] = "wire." + strings.TrimSuffix(strings.TrimPrefix(f.Name, "(d_"), " D)")
+			}
+			if strings.HasPrefix(f.Name, "r_") || strings.HasPrefix(f.Name, "w_") {
+				m["tname"] = f.Name[2:]
+			}
+			return m
 		}
 		return map[string]interface{}{"k": "unsupported", "name": "unresolved " + f.Name}
 	}
